@@ -1071,3 +1071,52 @@ func lemmaC03_fopts_variant(down, hasPort bool, port uint8, fopts, frm []byte, k
 		verifAssert(bytesEqualIdx(d.Bytes, want), "spec-variant")
 	}
 }
+
+// thorough tier only (the name contains _slow_): the same with a CFList of five channel frequencies, i.e. the
+// two-block (32-byte) case of the join-accept cipher.
+func lemmaC04_slow_joinaccept_cipher_cflist(key AES128Key, v JoinAcceptPayload, ch CFListChannelPayload, mic MIC) {
+	if v.JoinNonce >= 1<<24 || v.RXDelay > 15 || v.DLSettings.RX2DataRate > 15 || v.DLSettings.RX1DROffset > 7 {
+		return
+	}
+	for i := 0; i < 5; i++ {
+		if ch.Channels[i]%100 != 0 || ch.Channels[i]/100 >= 1<<24 {
+			return
+		}
+	}
+	orig := v
+	want := ch
+	v.CFList = &CFList{CFListType: CFListChannel, Payload: &ch}
+	p := PHYPayload{MHDR: MHDR{MType: JoinAccept, Major: LoRaWANR1}, MACPayload: &v, MIC: mic}
+	err := p.EncryptJoinAcceptPayload(key)
+	verifAssert(err == nil, "encrypts")
+	if err != nil {
+		return
+	}
+	err2 := p.DecryptJoinAcceptPayload(key)
+	verifAssert(err2 == nil, "decrypts")
+	if err2 != nil {
+		return
+	}
+	verifAssert(p.MIC == mic, "mic-recovered")
+	w, ok := p.MACPayload.(*JoinAcceptPayload)
+	verifAssert(ok, "payload-type")
+	if !ok {
+		return
+	}
+	verifAssert(w.JoinNonce == orig.JoinNonce, "joinnonce")
+	verifAssert(w.HomeNetID == orig.HomeNetID, "netid")
+	verifAssert(w.DevAddr == orig.DevAddr, "devaddr")
+	verifAssert(w.DLSettings == orig.DLSettings, "dlsettings")
+	verifAssert(w.RXDelay == orig.RXDelay, "rxdelay")
+	verifAssert(w.CFList != nil, "cflist")
+	if w.CFList == nil {
+		return
+	}
+	verifAssert(w.CFList.CFListType == CFListChannel, "cflist-type")
+	cp, okc := w.CFList.Payload.(*CFListChannelPayload)
+	verifAssert(okc, "cflist-payload-type")
+	if !okc || cp == nil {
+		return
+	}
+	verifAssert(cp.Channels == want.Channels, "cflist-channels")
+}
